@@ -361,7 +361,7 @@ def run_struct_case(spec, rng_seed):
 
 
 CHECKERS = {"blocks": "blocks_case_ok", "creation": "creation_case_ok", "random": "random_case_ok",
-            "op": "op_case_ok", "unary": "unary_case_ok", "tree": "tree_case_ok", "ctor": "ctor_case_ok", "attr": "attr_case_ok"}
+            "op": "op_case_ok", "unary": "unary_case_ok", "tree": "tree_case_ok", "ctor": "ctor_case_ok", "attr": "attr_case_ok", "void": "void_case_ok"}
 
 
 def coq_check(name, groups):
@@ -1470,6 +1470,132 @@ def traced_attr_case(rng, mode, names=None):
     return rec, jsonable(xs)
 
 
+# ---------------------------------------------------------------- (H) void wrappers: the numpy.testing assertions
+
+VOID_DIFFS = ["equal", "value", "tiny", "shape", "dtype", "nan"]
+VOID_MIXES = ["block-block", "block-scalar", "block-array", "scalar-block"]
+VOID_PASS = ["positional", "keyword", "second-keyword"]
+
+
+def void_cases(ctx):
+    import scico.numpy as snp
+    rng = ctx.rng
+    allc = [(n, d, m, p_) for n in snp.testing_functions for d in VOID_DIFFS for m in VOID_MIXES for p_ in VOID_PASS]
+    if ctx.quick:
+        allc = [c for c in allc if c[1] in ("value", "shape")] [::2] + rng.sample(allc, 60)
+    out = []
+    for n, d, m, p_ in allc:
+        for rep in range(ctx.n(1, 2)):
+            nb = rng.randint(2, 3)
+            out.append({"name": n, "diff": d, "mix": m, "passing": p_, "nblocks": nb,
+                        "where": rng.choice([0] + list(range(1, nb)) * 3), "case_seed": rng.getrandbits(40)})
+    return out
+
+
+def run_void_case(c):
+    """-> (what | None, coq | None)"""
+    import jax.numpy as jnp
+    import scico.numpy as snp
+    from scico.numpy import BlockArray
+    rng = _random.Random(c["case_seed"])
+    name, diff, mix, j = c["name"], c["diff"], c["mix"], c["where"]
+    sf, nf = get_fn(snp, name), get_fn(np, name)
+    shapes = [rng.choice([(3,), (2, 2), (), (4,)]) for _ in range(c["nblocks"])]
+    scalar = 1.5
+    if mix == "block-block":
+        xs = [np.array([rng.randint(-8, 8) / 4 for _ in range(int(np.prod(s)) if s else 1)]).reshape(s) for s in shapes]
+    else:
+        xs = [np.full(s, scalar) for s in shapes]
+    ys = [x.copy() for x in xs]
+    b = ys[j]
+    if diff == "value":
+        b = b.copy(); b.reshape(-1)[-1] += 1.0
+    elif diff == "tiny":
+        b = b.copy(); b.reshape(-1)[-1] += 2.0 ** -40
+    elif diff == "nan":
+        b = b.copy(); b.reshape(-1)[-1] = np.nan
+    elif diff == "shape":
+        b = np.concatenate([b.reshape(-1), [scalar, scalar]])
+    ys[j] = b
+    if diff == "dtype":
+        ys = [y.astype(np.float32) for y in ys]
+    Y = BlockArray([jnp.asarray(y) for y in ys])
+    other = {"block-block": BlockArray([jnp.asarray(x) for x in xs]), "block-scalar": scalar,
+             "block-array": jnp.asarray([scalar]), "scalar-block": scalar}[mix]
+    first, second = (other, Y) if mix == "scalar-block" else (Y, other)
+    if mix == "block-block":
+        first, second = other, Y
+    pnames = list(inspect.signature(nf).parameters)[:2]
+    kw = {"rtol": 1e-6} if (name.endswith("allclose") and rng.random() < 0.5) else {}
+    if c["passing"] == "positional":
+        a = [first, second]
+    elif c["passing"] == "keyword":
+        a, kw = [], {pnames[0]: first, pnames[1]: second, **kw}
+    else:
+        a, kw = [first], {pnames[1]: second, **kw}
+    nb = c["nblocks"]
+    pickb = lambda v, i: v.arrays[i] if isinstance(v, BlockArray) else v  # noqa
+    failing = []
+    for i in range(nb):
+        try:
+            nf(*[pickb(v, i) for v in a], **{k_: pickb(v, i) for k_, v in kw.items()})
+        except AssertionError:
+            failing.append(i)
+    enc, log = Enc(), []
+    cargs = [enc.arg(v) for v in a]
+    keymap = {k_: i + 1 for i, k_ in enumerate(inspect.signature(nf).parameters)}
+    ckw = [(keymap[k_], enc.arg(v)) for k_, v in kw.items()]
+    bad = [ids[i] for ba, ids in enc.blocks for i in failing]
+    raised = {}
+
+    def mk(orig):
+        def proxy(*pa, **pk):
+            rec = ([enc.seen(x) for x in pa], [(keymap[k_], enc.seen(v)) for k_, v in pk.items()])
+            log.append(rec)
+            try:
+                return orig(*pa, **pk)
+            except BaseException:
+                raised["call"] = rec
+                raise
+        return proxy
+    exc = None
+    can_patch = getattr(sf, "__closure__", None) and "func" in sf.__code__.co_freevars
+    try:
+        if can_patch:
+            with Patched(sf, "func", mk):
+                r = sf(*a, **kw)
+        else:
+            r = sf(*a, **kw)
+    except AssertionError as e:
+        exc = e
+    except Exception as e:  # noqa
+        exc = e
+    coq = None
+    if can_patch:
+        if exc is None:
+            o = "(0, 0)"
+        elif isinstance(exc, AssertionError) and "call" in raised:
+            tags = [int(t[1].split()[1].rstrip(")").strip("()")) if t[0] == "P" and t[1].startswith("(VObj") else -1
+                    for t in raised["call"][0] + [v for _, v in raised["call"][1]]]
+            o = f"(1, {zlit(next((t for t in tags if t in bad), -1))})"
+        else:
+            o = f"(2, {exc_code(exc)})"
+        coq = ("void", "(" + coq_list([c_arg(x) for x in cargs]) + ", " + coq_list([f"({zlit(q)}, {c_arg(v)})" for q, v in ckw])
+               + ", " + coq_list([zlit(t) for t in bad]) + ", " + o + ")")
+    what = None
+    if failing and exc is None:
+        what = ("assertion passes although the per-block assertion fails for a block"
+                + (" other than block 0" if 0 not in failing else ""))
+    elif not failing and exc is not None:
+        what = f"raises {type(exc).__name__} although the assertion holds for every block"
+    elif failing and not isinstance(exc, AssertionError):
+        what = f"raises {type(exc).__name__}, not AssertionError"
+    elif exc is None and r is not None:
+        what = "void wrapper returns a value"
+    c["failing_blocks"] = failing
+    return what, coq
+
+
 # ---------------------------------------------------------------- run / replay
 
 import random as _random
@@ -1646,6 +1772,16 @@ def run(ctx: Ctx):
                         ctx.violation("BlockArray.attribute-traced", "container (BlockArray / tuple) of the attribute differs between "
                                       "eager and traced evaluation", inp, expected=eager[key], observed=r["container"])
 
+    # (H) void wrappers (numpy.testing assertions): outcome = conjunction over the blocks
+    for c in void_cases(ctx):
+        what, coq = run_void_case(c)
+        ctx.count("void-wrapper", c, nontrivial=bool(c.get("failing_blocks")))
+        add_coq(coq, ("void-wrapper", "outcome / raising block of the assertion wrapper differs from the model "
+                                      "(first failing block raises, passes iff every block passes)", c, None))
+        if what:
+            ctx.violation("void-wrapper", what, c, expected="AssertionError iff the numpy assertion fails for some block",
+                          oracle="numpy.testing assertion on each block")
+
     # name tables are exhaustive
     ctx.notes.append(f"names covered: {len(unary_ops)} unary + {len(binary_ops)} binary class operators (+{len(BIN_SYMS) + len(UN_SYMS)} "
                      f"operator symbols), {len(B.da_methods)} methods, {len(B.da_props)} properties, {len(snp.creation_routines)} creation "
@@ -1682,6 +1818,8 @@ def replay(ctx: Ctx, rec):
         what = random_case(_random.Random(inp["case_seed"]), inp["name"], inp["variant"]).get("what")
     elif unit == "BlockArray.attribute":
         what = attr_case(_random.Random(inp["case_seed"]), inp["kind"], inp["name"])["what"]
+    elif unit == "void-wrapper":
+        what, coq = run_void_case(inp)
     elif unit == "BlockArray.__init__":
         what, coq, _ = run_ctor_case(inp["kinds"], inp["how"])
     elif unit == "BlockArray.attribute-traced":
